@@ -47,7 +47,9 @@ SPEC = dict(gen=['tables', 'actions', 'lexdata', 'defs', 'rules', 'unicodecat'],
 BLOCK1 = ['/**/', '/* c */', '/***/', '/*//*/', '/* /* */', "/*'*/", '/*"*/', '/* é 日本 \U0001F600 */', '/*/*/', '/* * / */',
           '/*\\*/', '/* x = 1; */', '/*\t*/']
 BLOCKN = ['/*\n*/', '/* a\r\n b */', '/*\r*/', '/* */', '/* x   y */', '/*\n\n*/', '/*\n * doc\n */', '/* // \n */']
-LINE = ['//', '// c', '//c /* x', '// \'q"', '// é\U0001F600', '///', '//*/', '// */ x', '//\t;', '// a = 1;']
+LINE = ['//', '// c', '//c /* x', '// \'q"', '// é\U0001F600', '///', '//*/', '// */ x', '//\t;', '// a = 1;',
+        # trailing blanks of every kind belong to the comment (it extends to the line terminator)
+        '// c ', '// c  \t', '//\xa0', '// c\x0c', '// c \u2003 ', '//\t']
 TERMS = ['\n', '\n', '\r', '\r\n', ' ', ' ']
 LTS = '\n\r  '
 
@@ -233,6 +235,12 @@ def judge_faithful(text, d1, src_comments, stats=None):
             off = pos[0]
             if text[off:off + len(v)] != v:
                 return 'comment %r recorded at offset %d where the source has %r' % (v, off, text[off:off + len(v) + 2])
+            end = off + len(v)
+            if c.kind == 'LineComment' and (not v.startswith('//') or (end < len(text) and text[end] not in '\n\r\u2028\u2029')):
+                return 'line comment %r at offset %d is not the whole comment of the source (it goes on with %r)' % (
+                    v, off, text[end:end + 6])
+            if c.kind == 'BlockComment' and not (v.startswith('/*') and v.endswith('*/') and len(v) >= 4 and '*/' not in v[2:-2]):
+                return 'block comment %r at offset %d is not one whole comment' % (v, off)
             if tuple(pos[1:]) != T.line_col(text, off, starts):
                 return 'comment %r at offset %d recorded at %d:%d, ES5 counting gives %d:%d' % (
                     (v, off) + tuple(pos[1:]) + T.line_col(text, off, starts))
